@@ -21,7 +21,7 @@ CODES = {
     'par_apply': 120, 'par_map': 121, 'par_map_ref': 122, 'par_iter_elements': 123, 'par_iter_elements_mut': 124,
     'into_par_iter_elements': 125, 'par_iter_elements_idx': 126, 'par_iter_elements_mut_idx': 127,
     'into_par_iter_elements_idx': 128,
-    'drop': 130, 'threaded_vectors_mut': 140,
+    'drop': 130, 'threaded_vectors_mut': 140, 'threaded_scan': 141,
 }
 PAR_ITEM_OPS = {123, 124, 125, 126, 127, 128}
 
